@@ -1,44 +1,36 @@
 //! vharness: generates cases for a property and runs them against the real
 //! retrofire code in-process.
 //!
-//!   vharness gen <prop> <seed> <quick|thorough>     -> one case per line
-//!   vharness run <prop> < cases                     -> "<case> => <impl output>"
+//!   target/release/cNN gen <seed> <quick|thorough>     -> one case per line
+//!   target/release/cNN run < cases                     -> "<case> => <impl output>"
+//!
+//! One binary per property (src/bin/cNN.rs), so that a property's check builds only its
+//! own harness code plus /repo.
 //!
 //! Every case runs under catch_unwind; a panic is an output ("panic:<message>").
 use std::io::{self, BufRead, Write};
 use std::panic::{catch_unwind, AssertUnwindSafe};
 
-mod c19;
-mod util;
+pub mod util;
 
 use util::{Rng, Tier};
 
-type GenFn = fn(&mut Rng, Tier, &mut Vec<String>);
-type RunFn = fn(&[&str]) -> String;
+pub type GenFn = fn(&mut Rng, Tier, &mut Vec<String>);
+pub type RunFn = fn(&[&str]) -> String;
 
-fn table(prop: &str) -> Option<(GenFn, RunFn)> {
-    Some(match prop {
-        "C19" => (c19::gen, c19::run),
-        _ => return None,
-    })
-}
-
-fn main() {
+/// Entry point shared by the per-property binaries in src/bin/.
+pub fn harness_main(gen: GenFn, run: RunFn) {
     let args: Vec<String> = std::env::args().collect();
-    if args.len() < 3 {
-        eprintln!("usage: vharness gen <prop> <seed> <tier> | run <prop>");
+    if args.len() < 2 {
+        eprintln!("usage: <bin> gen <seed> <tier> | run");
         std::process::exit(2);
     }
-    let Some((gen, run)) = table(&args[2]) else {
-        eprintln!("unknown property {}", args[2]);
-        std::process::exit(2);
-    };
     let out = io::stdout();
     let mut out = io::BufWriter::new(out.lock());
     match args[1].as_str() {
         "gen" => {
-            let seed: u64 = args.get(3).map(|s| s.parse().unwrap()).unwrap_or(1);
-            let tier = match args.get(4).map(|s| s.as_str()) {
+            let seed: u64 = args.get(2).map(|s| s.parse().unwrap()).unwrap_or(1);
+            let tier = match args.get(3).map(|s| s.as_str()) {
                 Some("thorough") => Tier::Thorough,
                 _ => Tier::Quick,
             };
